@@ -25,6 +25,21 @@ Theorem C12_reserialise_exact : forall ecok body k rest, bytes_ok body = true ->
 Proof. intros ecok body k rest. apply parse_public_key_exact. reflexivity. Qed.
 Print Assumptions C12_reserialise_exact.
 
+(* octets behind the fields of a key packet (a packet that is longer than its content) change
+   neither the key that is read nor, hence, its fingerprint, key ID and attributes: packet.Read
+   consumes and drops them (F40: they used to be left in the stream as the next packet header) *)
+Theorem C12_trailing_octets_ignored : forall c ecok body k rest x,
+  parse_public_key c ecok body = Ok (k, rest) -> parse_public_key c ecok (body ++ x) = Ok (k, rest ++ x).
+Proof. exact parse_public_key_app. Qed.
+Print Assumptions C12_trailing_octets_ignored.
+
+Theorem C12_key_packet_trailing_octets : forall c P tag body x sub k,
+  ((tag =? 6) || (tag =? 14)) = true ->
+  read_packet c P tag body true = RP (PKey sub false k) ->
+  read_packet c P tag (body ++ x) true = RP (PKey sub false k).
+Proof. exact key_packet_trailing_octets. Qed.
+Print Assumptions C12_key_packet_trailing_octets.
+
 (* the 2-octet length in the hashed form never wraps *)
 Theorem C12_key_body_short : forall c ecok body k rest, bytes_ok body = true ->
   parse_public_key c ecok body = Ok (k, rest) -> lenN (key_body k) < 65536.
@@ -226,3 +241,52 @@ Theorem C12_F41_refuted :
     [(bs "Usage", bs "encrypt communications, encrypt storage"); (bs "Created", bs "2020-01-01"); (bs "Expires", bs "2022-12-31")].
 Proof. split; [exact f41_legacy | exact f41_fixed]. Qed.
 Print Assumptions C12_F41_refuted.
+
+(* ---- which of several self-signatures counts (RFC 4880 5.2.3.3: the most recent one) ---- *)
+
+(* over a run of verified binding signatures behind a subkey packet the reader computes the fold
+   sel_sub (shouldReplaceSubkeySig), over verified self-certifications behind a user ID the fold
+   sel_self; a run of signature packets in the packet loop is exactly such a run *)
+Theorem C12_selection_is_a_fold : forall c P primary pid,
+  (forall sigs st k sg bd,
+     Forall (fun s => sc_type (s_core s) = pgp_sigtype_subkey_binding /\ verify_key_sig c P primary k s = Ok tt) sigs ->
+     steps c P primary pid st (MSub k sg bd) sigs =
+       Ok (st, MSub k (sel_sub sg (map s_core sigs)) (sel_sub bd (map s_core sigs)))) /\
+  (forall sigs st name self others,
+     Forall (fun s => is_self_cert pid (s_core s) = true /\ verify_uid_sig c P primary name (s_core s) = Ok tt) sigs ->
+     steps c P primary pid st (MUid name self others) sigs =
+       Ok (st, MUid name (sel_self c self (map s_core sigs)) others)) /\
+  (forall sigs st m st' m' rest, steps c P primary pid st m sigs = Ok (st', m') ->
+     run_packets c P primary pid st m (sig_evs sigs ++ rest) = run_packets c P primary pid st' m' rest).
+Proof.
+  intros c P primary pid. split; [|split].
+  - apply steps_sub.
+  - apply steps_uid.
+  - apply run_packets_steps.
+Qed.
+Print Assumptions C12_selection_is_a_fold.
+
+(* for EVERY list of binding signatures, in whatever order they are stored: the one that counts has
+   the maximal creation time, and it is the first of those that have it *)
+Theorem C12_latest_binding_signature : forall l s, Forall not_rev l -> sel_sub None l = Some s ->
+  exists l1 l2, l = l1 ++ s :: l2 /\
+    (forall x, In x l1 -> sc_created x < sc_created s) /\ (forall x, In x l2 -> sc_created x <= sc_created s).
+Proof. exact sel_sub_latest. Qed.
+Print Assumptions C12_latest_binding_signature.
+
+(* for EVERY list of self-signatures of an identity: the one that counts has the maximal creation
+   time, and it is the last of those that have it (as GnuPG: sig->timestamp >= sigdate) *)
+Theorem C12_latest_self_signature : forall l s, sel_self fixed None l = Some s ->
+  exists l1 l2, l = l1 ++ s :: l2 /\
+    (forall x, In x l1 -> sc_created x <= sc_created s) /\ (forall x, In x l2 -> sc_created x < sc_created s).
+Proof. exact sel_self_latest. Qed.
+Print Assumptions C12_latest_self_signature.
+
+(* F42: the code as found kept the LAST self-signature in the stream: a key whose newer self-signature
+   stands first (the order in which e.g. Sequoia writes them) showed the superseded usage and expiry *)
+Theorem C12_F42_refuted :
+  (forall l a, sel_self legacy (Some a) l = Some (last l a)) /\
+  sel_self legacy None [f42_new; f42_old] = Some f42_old /\
+  sel_self fixed None [f42_new; f42_old] = Some f42_new.
+Proof. split; [exact sel_self_legacy_last | split; [exact f42_legacy | exact f42_fixed]]. Qed.
+Print Assumptions C12_F42_refuted.
